@@ -642,6 +642,11 @@ def run(rep, tier):
         nspec += affine_rule(rep, u)
         if lab != "ecdsa:test":      # the test configuration defines EC_DISABLE_PUB_KEY_CHK
             nv += validation_rule(rep, u)
+    # cofactor multiplication in ecdsa_dh uses curve->h from the built-in table: the table rule of C02 (incl. the cofactor) is
+    # an obligation of this property too
+    from props import c02
+    del c02.CURVES[:]
+    rep.floor("curve records (cofactor, order, generator)", c02.curve_table(rep, us["ecdsa:default"]), 30)
     rep.floor("bounded reads/writes decided", nb, 60)
     rep.floor("codec layouts and importer arms evaluated", nc, 200)
     rep.floor("validation obligations", nv, 10)
